@@ -107,6 +107,36 @@ let rec run_case (kind : string) (body : sexp list) : string * string =
               if List.length evs < List.length sts then evs @ [ZUnsub] else evs)
         else sts in
       (show_segs (run_finalize_segs sh sts), "UNSPECIFIED")
+  | "retire" ->
+      (* (retire FORM PRODUCER POSITION (ops U...) [(stims ...)]) *)
+      let prod = List.nth body 1 and pos = List.nth body 2 in
+      let os = expand_all (List.map uop_of (args (List.nth body 3))) in
+      let (two, other) = (match pos with
+          | Atom "main" -> (None, [])
+          | _ ->
+              let sd = (match head pos with "a" -> A | "b" -> B | _ -> failwith "bad position") in
+              let o = op2_of (List.nth (args pos) 0) in
+              let other = (match List.nth (args pos) 1 with Atom "hot" -> [] | c -> List.map ev_of (args c)) in
+              (Some (o, sd), other)) in
+      let r = (match head prod with
+          | "iter" ->
+              let n = int_of (List.hd (args prod)) in
+              let items = List.init n (fun i -> VZ (z_of_int i)) in
+              let (pulls, tr) = run_iter_case two os other items in
+              Printf.sprintf "pulls=%d %s" (int_of_nat pulls) (show_trace tr)
+          | "stream" ->
+              let polls = List.map (fun b ->
+                  let xs = args b in
+                  (List.map val_of (List.filter (fun x -> x <> Atom "end") xs), List.mem (Atom "end") xs)) (args prod) in
+              let ((pulls, tr), fin) = run_stream_case os polls in
+              Printf.sprintf "pulls=%d fin=%s %s" (int_of_nat pulls) (if fin then "#t" else "#f") (show_trace tr)
+          | "interval" ->
+              let sts = List.map (function Atom "tick" -> RTick | s -> RSide (ev_of (List.hd (args s)))) (args (List.nth body 4)) in
+              let (live, tr) = run_interval_case two os sts in
+              Printf.sprintf "live=%s %s" (if live then "#t" else "#f") (show_trace tr)
+          | h -> failwith ("bad producer " ^ h)) in
+      let r = String.trim r in
+      (r, r)
   | "finalize_race" ->
       (* two threads, each: some other step, then its take of the cell; all interleavings *)
       let rec inter a b = match a, b with
